@@ -1,5 +1,6 @@
 SPECIFICATION GSpec
 CONSTANTS
+  Flight = "none"
   Hosts = {"a", "b", "x"}
   Clusters = {"A", "B"}
   Keys = {"k1", "k2"}
